@@ -91,27 +91,20 @@ def validate_dwt1(rep, pid, tier, which):
 
 
 def judge(rep, events, a, b, rej, cfg, api, machine):
-    """One recorded execution [a, b) against the rejected event indices.
-    A rejected INTERNAL event (a hook point between call and return) says that the code no longer takes the steps the Impl
-    model takes - a refactoring does that too (passes reordered, a hook moved or dropped) without breaking any property: it is
-    reported as impl-drift.  Only when every internal event is explained and the RETURN event - the API-level observable:
-    outcome, output shapes - is not, the execution is a VIOLATION.  Returns True when accepted."""
+    """One recorded execution [a, b) against the rejected event indices.  Returns True when accepted.
+    A rejected event says that the code does not take the steps the Impl model takes.  A refactoring does that too - passes
+    reordered, a hook moved or dropped (then the machine has not advanced and the RETURN event is rejected as well, although what
+    the call returned is right) - without breaking any property.  So a rejection is ALWAYS reported as impl-drift: the stage
+    traces bind the model to the code and localise, the API-level layers built on the same machines (shapes, values, raises of
+    the real calls against the machines' records) decide.  (First version: a rejected return event alone was a VIOLATION; a
+    behaviour-preserving refactoring that removed the hooks of the a-trous passes but kept the level hook showed that this
+    was a false alarm - section 16.)"""
     r = [k for k in range(a, b) if k in rej]
     if not r:
         return True
-    if not any(events[k].get("ev") not in ("reset", "call", "ret") for k in range(a, b)):
-        # no hook event at all was recorded for this call (the hook calls are gone from that code path): nothing to validate
-        rep.drift.append("stage trace of %s at %s: the call produced no hook events (hooks removed?) - stage-level validation inconclusive" % (api, cfg))
-        rep.count("stage_traces_without_hook_events")
-        return False
-    internal = [k for k in r if events[k].get("ev") != "ret"]
     e = events[r[0]]
-    if internal:
-        rep.drift.append("stage trace of %s at %s: event %r is not a step of the %s (model fidelity; the API-level layers decide)" % (api, cfg, e, machine))
-        rep.count("stage_traces_drifted")
-    else:
-        rep.violation("%s at %s: every internal step is a step of the %s, but what the call RETURNED (%r) is not what the machine "
-                      "returns there" % (api, cfg, machine, e), {"api": api, "check": "stage_trace", "cfg": cfg, "event": e, "trace": events[a:b]})
+    rep.drift.append("stage trace of %s at %s: event %r is not a step of the %s (model fidelity; the API-level layers decide)" % (api, cfg, e, machine))
+    rep.count("stage_traces_drifted")
     return False
 
 
